@@ -487,6 +487,10 @@ func corpus() []jcase {
 		{Class: clsEmptyRef, Ops: []jop{opAdd("a", refN(1), nil), opAdd("/", nil, mdPool[5]), opP("lookup", "/"), {Op: "store"}, opP("lookup", "/"), {Op: "reload"}, opP("lookup", "/"), opP("lookup", "a")}},
 		// only empty references: lookup after store panics in UnmarshalBinary
 		{Class: clsEmptyRef, Ops: []jop{opAdd("a", nil, md), opAdd("ab", nil, md), {Op: "store"}, opP("lookup", "a")}},
+		// the same defects seen through HasPrefix / Remove
+		{Class: clsRmPrefix, Ops: []jop{opAdd("a", refN(1), nil), opAdd("ab", refN(2), nil), opP("remove", "a"), opP("has", "ab")}},
+		{Class: clsEmptyRef, Ops: []jop{opAdd("a", nil, md), opAdd("ab", nil, md), {Op: "store"}, opP("has", "a")}},
+		{Class: clsMutate, Ops: []jop{opAdd("a", refN(1), nil), opAdd("ab", refN(3), nil), {Op: "store"}, opAdd("a", refN(2), nil), opP("remove", "ab")}},
 		// hasPrefix after removes
 		{Class: clsDisc, Ops: []jop{opAdd("ab", refN(1), nil), opAdd("ac", refN(2), nil), opP("remove", "ab"), opP("remove", "ac"), opP("has", "a"), opP("lookup", "ab"), {Op: "store"}, {Op: "reload"}, opP("has", "a"), opP("lookup", "ac")}},
 		{Class: clsDisc, Ops: []jop{opAdd(long40, refN(1), nil), opP("remove", long40), opP("has", "0"), opP("lookup", long40)}},
@@ -725,7 +729,7 @@ func main() {
 		runHistory(run, jc)
 	}
 	g := &gen{r: run.R}
-	n := run.N(150, 2500)
+	n := run.N(200, 2500)
 	for i := 0; i < n; i++ {
 		class := clsDisc
 		switch x := run.R.Intn(20); {
